@@ -11,7 +11,7 @@ const SPEC: Spec = Spec {
         "refint schoolbook multiplication is trusted; cross-checked against Python int on a transcript slice",
         "x86_64 / 64-bit digits only",
     ],
-    bounds_quick: "M1 Dense(S5,3)^2 + Dense(S8+,2)^2; M2 all 1<=lx<=ly<=100 x 12x12 patterns + squares; M3 lx in {255..259,385,770} x 8 length relations x 12x12 patterns; M4 low/inner zero digits; M5 BigInt sign pairs and scalar forms on the pool; M6 dense LCG digits for every 1<=lx<=ly<=72 x 2x2 members; M7 pool x every 2^k-1, 2^k, 2^k+1 (k<128) as scalar of every width and as big operand",
+    bounds_quick: "M1 Dense(S5,3)^2 + Dense(S8+,2)^2; M2 all 1<=lx<=ly<=100 x 12x12 patterns + squares; M3 lx in {255..259,385,770} x 8 length relations x 12x12 patterns; M4 low/inner zero digits; M5 BigInt sign pairs and scalar forms on the pool, plus the *= / by-value forms on operands with spare buffer capacity for the whole product (also on every M6 length pair); M6 dense LCG digits for every 1<=lx<=ly<=72 x 2x2 members; M7 pool x every 2^k-1, 2^k, 2^k+1 (k<128) as scalar of every width and as big operand",
     bounds_thorough: "M1; M2 all 1<=lx<=ly<=400 x 12x12 patterns + squares; M3 lx in {255..262,300,383..386,511..514,767..772,1023..1026,1537..1539,2048,2305,2309..2311} x 8 length relations x 12x12 patterns; M4; M5; M6 up to 160 digits x 6x6 family members; M7",
     hang_secs: 120,
     probes: Some(probes),
@@ -77,6 +77,58 @@ fn mul_pair(ctx: &mut Ctx, ad: &[u64], bd: &[u64], a: &BigUint, b: &BigUint, sig
             }
         }
     }
+}
+
+/// the in-place and by-value forms on operands whose buffer has spare capacity for the whole product
+fn mul_slack(ctx: &mut Ctx, ad: &[u64], bd: &[u64], a: &BigUint, b: &BigUint) {
+    ctx.case();
+    let an = Nat::from_digits(ad);
+    let bn = Nat::from_digits(bd);
+    let want = an.mul(&bn);
+    let need = an.len() + bn.len() + 2;
+    let (sa, capa) = with_slack(a, need);
+    let (sb, _) = with_slack(b, need);
+    if capa >= need {
+        ctx.goal("left operand with capacity for the whole product");
+        if an.len() >= 2 && bn.len() >= 2 {
+            ctx.nontrivial(1);
+        }
+    }
+    let args = || args2(&an, &bn);
+    let r = call(ctx, || {
+        let mut x = sa.clone();
+        // clone() may drop the slack: rebuild it on the clone when it did
+        if num_bigint::verif_probe::raw_biguint(&x).1 < need {
+            x = with_slack(&x, need).0;
+        }
+        x *= b;
+        x
+    });
+    expect_nat(ctx, "BigUint slack a*=&b", &args, r, &want);
+    let r = call(ctx, || {
+        let mut x = with_slack(a, need).0;
+        x *= b.clone();
+        x
+    });
+    expect_nat(ctx, "BigUint slack a*=b", &args, r, &want);
+    let r = call(ctx, || with_slack(a, need).0 * b);
+    expect_nat(ctx, "BigUint slack a*&b", &args, r, &want);
+    let r = call(ctx, || a * with_slack(b, need).0);
+    expect_nat(ctx, "BigUint &a*slack b", &args, r, &want);
+    let r = call(ctx, || with_slack(a, need).0 * with_slack(b, need).0);
+    expect_nat(ctx, "BigUint slack a*slack b", &args, r, &want);
+    let r = call(ctx, || {
+        let mut t = -BigInt::from(with_slack(a, need).0);
+        t *= BigInt::from(sb.clone());
+        t
+    });
+    expect_int(ctx, "BigInt slack -a*=b", &args, r, &Int::new(!want.is_zero(), want.clone()));
+    let r = call(ctx, || {
+        let mut t = BigInt::from(with_slack(a, need).0);
+        t *= &-BigInt::from(b.clone());
+        t
+    });
+    expect_int(ctx, "BigInt slack a*=&-b", &args, r, &Int::new(!want.is_zero(), want.clone()));
 }
 
 trait MapDbg {
@@ -209,6 +261,10 @@ fn body(ctx: &mut Ctx) {
                         let (xd, yd) = (alpha::lcg_digits(lx, sx), alpha::lcg_digits(ly, sy));
                         let (xu, yu) = (bu(&xd), bu(&yd));
                         mul_pair(ctx, &xd, &yd, &xu, &yu, false);
+                        if sx == 0 && sy == ns {
+                            mul_slack(ctx, &xd, &yd, &xu, &yu);
+                            mul_slack(ctx, &yd, &xd, &yu, &xu);
+                        }
                     }
                 }
                 if lx == ly {
@@ -344,6 +400,7 @@ fn body(ctx: &mut Ctx) {
             for j in 0..pool.len() {
                 ctx.inner(j as u64);
                 mul_pair(ctx, &pool[i], &pool[j], &us[i], &us[j], true);
+                mul_slack(ctx, &pool[i], &pool[j], &us[i], &us[j]);
             }
             // scalar forms
             let an = Nat::from_digits(&pool[i]);
